@@ -29,8 +29,9 @@ type x13Seed struct {
 	YAML  string
 	Extra []x13Mut
 
-	tree  map[string]interface{}
-	muts  []x13Mut // all single mutations (enumerated + extra)
+	tree map[string]interface{}
+	muts []x13Mut     // all single mutations (enumerated + extra)
+	acc  map[int]bool // memo: single mutation i is accepted by validation on its own
 }
 
 func x13Seeds(e *x13Env, kafkaAddr string) []*x13Seed {
